@@ -175,7 +175,7 @@ func check(args []string) int {
 	tier := fs.String("tier", os.Getenv("VERIF_TIER"), "quick|thorough")
 	workers := fs.Int("workers", 16, "")
 	solver := fs.String("solver", "z3-new", "")
-	budget := fs.Int("budget", 0, "seconds (0 = tier default)")
+	budget := fs.Int("budget", 0, "seconds per entry (0 = tier default: quick 900, thorough 7200)")
 	validate := fs.Int("validate", -1, "number of passing paths to validate natively (-1 = tier default)")
 	cross := fs.String("cross", "", "second solver (z3 | z3-new | cvc5): every entry is explored again with it and must give the same path counts and verdicts")
 	evDir := fs.String("evidence-dir", "", "write evidence and replays here instead of <verif>/evidence, <verif>/replays (scratch runs against mutated trees)")
@@ -202,7 +202,7 @@ func check(args []string) int {
 		entries = spec.Thorough
 	}
 	if *budget == 0 {
-		*budget = 600
+		*budget = 900
 		if *tier == "thorough" {
 			*budget = 7200
 		}
@@ -238,8 +238,9 @@ func check(args []string) int {
 	inconclusive := []string{}
 	var crossRuns, crossDisagree int
 	var crossQueries int64
-	deadline := time.Now().Add(time.Duration(*budget) * time.Second)
 	for _, e := range entries {
+		// the budget is per entry: a slow entry must not starve the ones after it
+		deadline := time.Now().Add(time.Duration(*budget) * time.Second)
 		res, err := P.Explore(gosym.Config{
 			Entry: e, Workers: *workers, Solver: *solver, Seed: seed,
 			SampleMod: 7, MaxSamples: nval * 4, Deadline: deadline,
